@@ -1611,6 +1611,23 @@ fn final_checks(w: &mut World) {
                     }
                 }
             }
+            // C04, "every byte written becomes readable": both tasks running, nothing injected, no id used
+            // twice, nothing in flight, the case ran to quiescence with the peer application still holding
+            // its stream and reading until its reads were pending — then it has read every byte this
+            // writer's accepted writes carried.
+            if both_up && !w.injected && !w.reused && w.quiesced && !w.sink_blocked[0] && !w.sink_blocked[1] && w.wire[0].is_empty() && w.wire[1].is_empty() {
+                if let Some((pe, ph)) = w.peer_handle(e, h) {
+                    let ri = &w.view[pe].handles[ph];
+                    if ri.alive {
+                        *w.mon.entry("written-readable/judged").or_insert(0) += 1;
+                        if ri.read.len() < hi.written.len() {
+                            let msg = format!("{} bytes were accepted by writes on {}#{h}, its peer {}#{ph} holds the stream and read until its reads {} — it got only {} bytes; both connection tasks are running and nothing is in flight: bytes written never become readable (options A={:?} B={:?})",
+                                hi.written.len(), NAMES[e], NAMES[pe], if ri.eof { "returned end-of-stream" } else { "were pending" }, ri.read.len(), w.opts[0], w.opts[1]);
+                            w.fail("C04", "written-not-readable", msg);
+                        }
+                    }
+                }
+            }
             if w.view[e].exited {
                 // everything must resolve after the connection ended
                 let out = w.stim(e, &[s("read"), s(h), s(4096)]);
